@@ -308,6 +308,25 @@ def far_future(report, scen, rng):
         report.count("far_future_store_filters")
 
 
+def adjacent_blocks(report, scen, rng):
+    """two kinds, two authors, two tag values and nothing else in the store: the requested values own adjacent index blocks;
+    windows that cut through every block"""
+    ks = rng.choice([[1, 7], [1, 2], [4, 7]])
+    au = rng.sample(gen.AUTHORS[:4], 2)
+    vals = rng.choice([["x", "y"], ["a", "b"], ["x", "xy"]])
+    evs = [{"id": gen.mkid(rng), "pubkey": rng.choice(au), "created_at": gen.T0 + rng.choice([0, 10, 20, 30, 40, 50]), "kind": rng.choice(ks),
+            "tags": [["t", rng.choice(vals)]], "content": "", "sig": "00" * 64} for _ in range(rng.randint(4, 9))]
+    scen.load(evs)
+    cut = gen.T0 + rng.choice([5, 15, 25, 35, 45])
+    for f in ({"kinds": ks, "until": cut}, {"authors": au, "until": cut}, {"#t": vals, "until": cut},
+              {"authors": au, "kinds": ks, "until": cut}, {"kinds": ks, "since": gen.T0 + 5, "until": cut},
+              {"kinds": ks, "#t": vals, "until": cut}, {"authors": au, "#t": vals, "until": cut}):
+        for rec in (scen.ask_kv(dict(f)), scen.ask_sql([dict(f)])):
+            oracle(report, scen, rec)
+            record(report, rec)
+        report.count("adjacent_block_filters")
+
+
 def run(report, tier, seed):
     rng = random.Random(seed)
     drv = common.Driver()
@@ -334,6 +353,8 @@ def run(report, tier, seed):
             run_case(report, scen, rng, adversarial=True)
         for i in range(6 if tier == "quick" else 60):
             far_future(report, scen, rng)
+        for i in range(10 if tier == "quick" else 150):
+            adjacent_blocks(report, scen, rng)
         if tier == "thorough":
             exhaustive(report, scen)
     finally:
